@@ -1,4 +1,5 @@
 """C16 — client disconnects affect handlers exactly as the task mode promises."""
+import json
 import re
 
 from . import lib_c16 as L
@@ -468,6 +469,16 @@ def r6_configured_mode_reaches_the_dispatch(ctx):
             for a in sl.atoms:
                 if a[0] == "agg" and a[1] == "config::HandlerTaskMode":
                     variants.add(a[2])
+                elif a[0] == "const":
+                    # a named constant of the mode type: its evaluated value
+                    try:
+                        v = json.loads(a[2]) or {}
+                    except Exception:
+                        v = {}
+                    if v.get("adt") == "config::HandlerTaskMode" and v.get("variant"):
+                        variants.add(v["variant"])
+                    else:
+                        variants.add("<constant %s>" % a[1])
             for c, cb, ct in sl.callees:
                 # `Default::default()` of the mode type: what that impl returns
                 tgt = ds.F.get(ct.get("resolved") or "") or ds.one(r"^<config::HandlerTaskMode as std::default::Default>::default$")
@@ -552,7 +563,7 @@ SELFTEST = [
 
 LEVEL_TEXT += ' Also (R4): the hyper connection builder is configured once before the transport switch and HTTP/1 half-close is never enabled, so HTTP and HTTPS detect a disconnect identically.'
 LEVEL_TEXT += " Also (R5): the disconnect record (log line, 499 probe) is written only for a future dropped mid-handler: the scope guard is defused on every path from the completed handler await to the response."
-LEVEL_TEXT += " Also (R6): the task mode read by the dispatch is the configured one: it is copied from the constructor's config, which every internal caller passes through unmodified. The serialising conversion of the configuration (serde `into`) carries the mode as well."
+LEVEL_TEXT += " Also (R6): the task mode read by the dispatch is the configured one: it is copied from the constructor's config, which every internal caller passes through unmodified. The serialising conversion of the configuration (serde `into`) carries the mode as well. Also (R7): the failure edge of the detached task's tx.send(result) passes a log record on every path; (R6) the mode of a configuration that names none is Detached."
 
 
 SELFTEST += [
